@@ -466,6 +466,30 @@ def sampler_constants():
     add("glrmDenseThreshold", if_gt(fn_named(t, "bipartite_random_m_edges"), "m"), "m above which glrm samples densely")
     add("regularRetries", for_range(fn_named(t, "bipartite_random_regular"), "retries"), "random tries per edge of `regular`")
     add("addEdgesRetries", for_range(fn_named(t, "add_random_missing_edges"), "_"), "sparse tries of addedges")
+
+    # `if r <= sys.maxsize: neighbours = random.sample(R, d)` of bipartite_random_left_regular: the
+    # largest r for which random.sample is asked (above it: the rejection loop over randint(1, r))
+    def sample_limit(fn, var):
+        if fn is None:
+            return None
+        for n in ast.walk(fn):
+            if isinstance(n, ast.If) and isinstance(n.test, ast.Compare) and isinstance(n.test.left, ast.Name) \
+                    and n.test.left.id == var and len(n.test.ops) == 1 and isinstance(n.test.ops[0], ast.LtE) \
+                    and any(isinstance(c, ast.Call) and isinstance(c.func, ast.Attribute) and c.func.attr == "sample"
+                            for b in n.body for c in ast.walk(b)) \
+                    and any(isinstance(c, ast.Call) and isinstance(c.func, ast.Attribute) and c.func.attr == "randint"
+                            for b in n.orelse for c in ast.walk(b)):
+                return n.test.comparators[0]
+        return None
+    lim = sample_limit(fn_named(t, "bipartite_random_left_regular"), "r")
+    descr = "largest r for which glrd asks random.sample (`sys.maxsize` of the 64 bit platform)"
+    if lim is None:
+        out.append(("glrdSampleLimit", [], None, descr + " (NOT FOUND)"))
+    elif isinstance(lim, ast.Attribute) and isinstance(lim.value, ast.Name) and lim.value.id == "sys" \
+            and lim.attr == "maxsize" and __import__("sys").maxsize == 2 ** 63 - 1:
+        out.append(("glrdSampleLimit", [], "(2 ^ 63 - 1)", descr))
+    else:
+        out.append(("glrdSampleLimit", [], None, descr + " (unsupported: {})".format(src(lim))))
     return out
 
 
